@@ -1,6 +1,9 @@
 # Table-driven part of the ledger property checks: which scenario chains tie the model to the node
 # for which property, and on which projection of the observables.
-from . import chainrun
+from . import chainrun, runprop
+
+# chains that end in a block no node can apply (recorded finding): no fault-free reference run exists
+NO_RETRY = ("bankmixed",)
 
 # tags: 1 pn_addresses 2 snapshot_current 3 snapshot_past 4 pn_rate 5 pn_bank 6 history_txbatch 7 history_transaction
 #       8 history_lookup 9 holding 10 address_transactions 11 pn_winners 12 pn_grade 13 synced 14 sync_version
@@ -30,10 +33,43 @@ def pairs(ctx, prop, extra=()):
     return [(s, sd) for s in scen for sd in chainrun.seeds_for(ctx, n)]
 
 
+def retried(ctx, scenarios):
+    """Every block applied twice by the same process: the first attempt at each height fails at its last statement
+    (the pn_sync_version insert of InsertSynced), DBlockSync rolls back and retries.  What the failed attempt left
+    in the daemon's memory must not reach the ledger: the final dump equals that of the fault-free run."""
+    import vlib
+    found = False
+    cov = ctx.coverage.setdefault("correspondence", {}).setdefault("every block retried once (same process) vs fault-free run", {})
+    for sc in scenarios:
+        if sc in NO_RETRY:
+            continue
+        try:
+            recs, summary = runprop.run(ctx, "retryall", "scen:" + sc, ctx.seed, [])
+        except vlib.TieBroken as e:
+            ctx.add_violation("the retry-every-block run could not be made on scenario %s: %s" % (sc, str(e)[:400]),
+                              {"kind": "retryall", "scenario": sc, "seed": ctx.seed, "error": str(e)[:1500]}, name="retryall-broken", found_input=False)
+            found = True
+            continue
+        cov[sc] = {"retried_blocks": summary.get("retried_blocks"), "violations": summary.get("violations")}
+        ctx.coverage["traces_validated_against_impl"] = ctx.coverage.get("traces_validated_against_impl", 0) + 1
+        ctx.coverage["evaluations"] = ctx.coverage.get("evaluations", 0) + int(summary.get("retried_blocks") or 0)
+        for r in recs:
+            if r.get("cmd") == "retryall" and r.get("ok") is False:
+                what = ("the daemon cannot get through the chain when every block fails once: %s" % str(r.get("error"))[:300]) if r.get("stuck") else \
+                       ("the ledger differs from the fault-free run: %s" % str((r.get("diff") or {}).get("only_got", ""))[:300])
+                ctx.add_violation("a failed and retried block changes the result (scenario %s seed %d, every block's first attempt fails at its last statement): %s"
+                                  % (sc, ctx.seed, what),
+                                  {"kind": "retryall", "scenario": sc, "seed": ctx.seed, "record": dict((k, v) for k, v in r.items() if k != "dumps"),
+                                   "replay_cmd": "harness: runprop retryall -work <dir> -scenario scen:%s -seed %d" % (sc, ctx.seed)}, name="retryall")
+                found = True
+    return found
+
+
 def run(ctx, prop=None, extra=(), **kw):
     prop = prop or ctx.prop
     q, t, tags, functional, what = TABLE[prop]
     res = chainrun.check(ctx, pairs(ctx, prop, extra), tags, "%s %s" % (prop, what), functional=functional, **kw)
+    retried(ctx, list(q)[:2] if ctx.tier == "quick" else list(q) + list(t))
     ctx.coverage["samples"] = ctx.coverage.get("samples", []) + [
         {"chain": "%s seed %d" % (r["scenario"], r["seed"]),
          "stats": dict((k, v) for k, v in r.get("stats", {}).items() if k in ("applied", "entries", "executed", "tx_kinds", "rated_blocks", "snapshot_payouts", "dev_payouts", "peg_requests_paid", "failed_at", "fail_error"))}
